@@ -343,3 +343,47 @@ Example C06_skip_refines_example :
   verdict (skip_go_m T_STRUCT bs) = (0, 28, 2) /\ skip_go T_STRUCT bs = Some [9; 9] /\
   verdict (skip_go_m T_MAP [11; 12; 255; 255; 255; 255]) = (E_SIZE, 6, 1) /\ skip_go T_MAP [11; 12; 255; 255; 255; 255] = None.
 Proof. vm_compute. repeat split; reflexivity. Qed.
+
+(* (C) protobuf: Skip(wireType) with the length test first = ProtoMsg.wdec_val on the suffix, for the four
+   wire types the wire model knows; no hypothesis on the bytes *)
+From DG Require Import ProtoMsg.
+
+Theorem C06_pskip_refines_wdec_val :
+  forall bs wt s, inv bs s -> (wt = 0 \/ wt = 1 \/ wt = 2 \/ wt = 5) ->
+  match pskip bs false wt s with
+  | Ok s' => exists v, wdec_val wt (suffix bs s) = Some (v, suffix bs s')
+  | Er _ _ => wdec_val wt (suffix bs s) = None
+  | _ => False
+  end.
+Proof. exact pskip_ref. Qed.
+Print Assumptions C06_pskip_refines_wdec_val.
+
+(* remark: for the other wire types (groups 3/4, reserved 6/7) the code returns nil without consuming
+   anything, while the wire model rejects them — the machine is more lenient there *)
+Theorem C06_pskip_other_wire_types :
+  forall bs wt s coded, wt <> 0 -> wt <> 1 -> wt <> 2 -> wt <> 5 ->
+  pskip bs coded wt s = Ok s /\ forall l, wdec_val wt l = None.
+Proof. exact pskip_other_wt. Qed.
+Print Assumptions C06_pskip_other_wire_types.
+
+(* whatever the wire decoder accepts, the unknown-field loop walks to the very end (only this direction:
+   the loop also accepts field numbers up to 2^31-1 and the lenient wire types) *)
+Theorem C06_wdec_accepts_implies_pfields :
+  forall bs w, wdec bs = Some w -> exists s, pfields_m false bs = Ok s /\ cur s = zlen bs.
+Proof. exact wdec_accepts_implies_pfields. Qed.
+Print Assumptions C06_wdec_accepts_implies_pfields.
+
+(* general form: from any state in bounds, any list fuel of the decoder, any fuel of the machine *)
+Theorem C06_wdec_loop_implies_pfields :
+  forall bs f lf s w, inv bs s -> wdec_loop lf (suffix bs s) = Some w ->
+  match pfields bs false f s with Ok s' => cur s' = zlen bs | OutOfFuel => True | _ => False end.
+Proof. exact pfields_ref. Qed.
+Print Assumptions C06_wdec_loop_implies_pfields.
+
+Example C06_proto_refines_example :
+  let bs := [8; 150; 1; 18; 2; 104; 105; 45; 1; 2; 3; 4] in
+  wdec bs = Some [(1, WVarint 150); (2, WBytes [104; 105]); (5, WFix32 67305985)] /\
+  verdict (pfields_m false bs) = (0, 12, 0) /\
+  (* more lenient: a group-start tag (field 1, wire type 3) is walked over by the loop, rejected by wdec *)
+  wdec [11] = None /\ verdict (pfields_m false [11]) = (0, 1, 0).
+Proof. vm_compute. repeat split; reflexivity. Qed.
